@@ -37,6 +37,7 @@ def run(idx, rep, tier):
     c08.byline(idx, rep, "R1", "R1", tier, scenarios=("abort", "skipall"), aspects=("schedule", "outcome"))
     r2(idx, rep)
     abort_marker(idx, rep)
+    completed_table(idx, rep, "R2")
     r3(idx, rep)
     c10.run_state(idx, rep, "R4")
     K.mutable_defaults(idx, rep, "R4")
@@ -71,6 +72,23 @@ def r2(idx, rep):
     # member manifests: completed comes from the csvpath, not a constant
     fr, ok, d = K.returns(idx, "ResultRegistrar", "completed", "self.result.csvpath.completed")
     rep.check(ok, "R2", f"{fr.file}::ResultRegistrar.completed source", d, K.where(fr, fr.node))
+
+
+def completed_table(idx, rep, rid):
+    """CsvPath.completed: true exactly when the path has a scanner and a line monitor and its current line is the scan's last line"""
+    fc = idx.method("CsvPath", "completed")
+    rep.analysed(fc)
+    IS_LAST = "self.scanner.is_last(self.line_monitor.physical_line_number)"
+    bad = None
+    for sc in (Obj("sc"), None):
+        for lm in (Obj("lm"), None):
+            for last in (True, False):
+                it = Interp(idx, types={"self": "CsvPath"}, unknown_calls="residual", handlers={"sc.is_last": lambda i, c, r, a, k, last=last: last})
+                ps = it.run_all(fc, store={"self.scanner": sc, "self.line_monitor": lm, "self._line_monitor": lm, "lm.physical_line_number": 4})
+                want = sc is not None and lm is not None and last
+                if len(ps) != 1 or ps[0].result != ("return", want):
+                    bad = bad or f"scanner={'set' if sc else None}, line monitor={'set' if lm else None}, current line is the scan's last={last}: completed is {[p.result for p in ps][:2]}, documented {want}"
+    rep.check(bad is None, rid, f"{fc.file}::CsvPath.completed table", bad or "8 rows", K.where(fc, fc.node))
 
 
 def abort_marker(idx, rep):
